@@ -249,22 +249,23 @@ def qChunks (cpl : Option Nat) (s : Str) : List Str :=
 def fastqNewLines (cpl : Option Nat) (id seq sc : Str) : List Str :=
   ('@' :: id) :: qChunks cpl seq ++ ['+'] :: qChunks cpl sc
 
-/-- `FastqFile.__setitem__` (repaired: the key is the normalised identifier).  As in the code,
-an existing entry is deleted first; the code then tests `identifier in self` a second time (true
+/-- `FastqFile.__setitem__` (repaired: the key is the normalised identifier).  The new lines are
+built first (a rejected replacement changes nothing), then an existing entry is deleted; the code then tests `identifier in self` a second time (true
 only if the text held the identifier twice) and in that case deletes again and re-indexes. -/
 def fastqSet (f : Fastq) (id seq : Str) (qs : List Int) : Except Err Fastq :=
   if seq.length ≠ qs.length then .error .valueError else
   if seq.isEmpty then .error .valueError else      -- repaired: an empty sequence is rejected
   let id := normHeader id
-  let del : Except Err Fastq := if (f.entries.lookup id).isSome then fastqDel f id else .ok f
-  match del with
+  -- repaired: the new lines are built first, a rejected replacement keeps the old entry
+  if f.cpl = some 0 then .error .valueError else
+  match encodeScores f.off qs with
   | .error e => .error e
-  | .ok f1 =>
-    if f.cpl = some 0 then .error .valueError else
-    match encodeScores f.off qs with
+  | .ok sc =>
+    let new := fastqNewLines f.cpl id seq sc
+    let del : Except Err Fastq := if (f.entries.lookup id).isSome then fastqDel f id else .ok f
+    match del with
     | .error e => .error e
-    | .ok sc =>
-      let new := fastqNewLines f.cpl id seq sc
+    | .ok f1 =>
       if (f1.entries.lookup id).isSome then
         match fastqDel f1 id with
         | .error e => .error e
